@@ -251,8 +251,8 @@ def check(ctx):
         run.add('C05.siblings', pe.module.name, pe.qualname, loops[0] if loops else 'namespace recursion', ok, why)
     # process() feeds every root element with the root scope
     proc = parser.methods.get('process')
-    loops = [n for n in iter_own_nodes(proc.node) if isinstance(n, ast.For)] if proc else []
-    ok = len(loops) == 1 and ast.unparse(loops[0].iter).endswith('.elements') and len(loops[0].body) == 1 and \
+    loops = [n for n in iter_own_nodes(proc.node) if isinstance(n, ast.For) and 'parse_element' in ast.unparse(n)] if proc else []
+    ok = len(loops) == 1 and not isinstance(loops[0].iter, ast.Call) and ast.unparse(loops[0].iter).endswith('.elements') and len(loops[0].body) == 1 and \
         'parse_element' in ast.unparse(loops[0].body[0]) and 'self._ns_trail' in ast.unparse(loops[0].body[0])
     run.add('C05.siblings', jmod.name, 'DznJsonAst.process', loops[0] if loops else 'process loop', ok,
             'process() parses every root element in order under the root scope' if ok else
